@@ -71,18 +71,19 @@ theorem normalMask_of_nodes (s s' : St) (h : s'.nodes = s.nodes) : s'.normalMask
 
 /-! ### the tracked invariant -/
 
-/-- `s` is a state inside a transaction that started from `b`. -/
-structure Track (b s : St) : Prop where
+/-- `s` is a state inside a transaction that started from `b`; `ex` is the request the
+transaction is about (the new request of an allocation, the re-allocated request). -/
+structure Track (b : St) (ex : String) (s : St) : Prop where
   mono : ∀ q ∈ s.reqs, msub (zoneIn b q.id) q.zone = true
-  resv : ∀ q ∈ s.reqs, 32766 < q.prio → zoneIn b q.id ≠ 0 → q.zone = zoneIn b q.id
-  normal : ∀ q ∈ s.reqs, q.zone ≠ 0 → q.zone &&& s.normalMask ≠ 0
+  resv : ∀ q ∈ s.reqs, 32766 < q.prio → q.id ≠ ex → q.zone = zoneIn b q.id
+  normal : ∀ q ∈ s.reqs, q.zone &&& s.normalMask ≠ 0
   nodes : s.nodes = b.nodes
 
-theorem track_ambig (b s : St) (x : Bool) (h : Track b s) : Track b { s with ambig := x } :=
+theorem track_ambig (b : St) (ex : String) (s : St) (x : Bool) (h : Track b ex s) : Track b ex { s with ambig := x } :=
   ⟨h.mono, h.resv, h.normal, h.nodes⟩
 
-theorem track_move (b : St) (nodes0 : Mask) (s : St) (r : Req) (nodes : Mask) (h : Track b s)
-    (hm : MoveOK s nodes0 r nodes) : Track b (s.zoneMove (r.zone ||| nodes) r.id) := by
+theorem track_move (b : St) (ex : String) (nodes0 : Mask) (s : St) (r : Req) (nodes : Mask) (h : Track b ex s)
+    (hm : MoveOK s nodes0 r nodes) : Track b ex (s.zoneMove (r.zone ||| nodes) r.id) := by
   have hnm : (s.zoneMove (r.zone ||| nodes) r.id).normalMask = s.normalMask :=
     normalMask_of_nodes _ _ (zoneMove_nodes _ _ _)
   refine ⟨?_, ?_, ?_, ?_⟩
@@ -97,18 +98,116 @@ theorem track_move (b : St) (nodes0 : Mask) (s : St) (r : Req) (nodes : Mask) (h
       have := hm.prio
       simp only at hp
       omega
-  · intro q' hq' hz
+  · intro q' hq'
     rw [hnm]
     rcases zoneMove_reqs_mem s hm.ids r hm.mem _ q' hq' with ⟨hq, _⟩ | e
-    · exact h.normal q' hq hz
+    · exact h.normal q' hq
     · subst e
-      exact and_ne_zero_of_msub (msub_or_self r.zone nodes) (h.normal r hm.mem hm.zone)
+      exact and_ne_zero_of_msub (msub_or_self r.zone nodes) (h.normal r hm.mem)
   · rw [zoneMove_nodes]; exact h.nodes
 
 /-- overcommit resolution preserves the tracked invariant -/
-theorem handleOvercommit_track (b s : St) (nodes0 : Mask) (hnd : IdsNodup s) (h : Track b s) :
-    IdsNodup (s.handleOvercommit nodes0).1 ∧ Track b (s.handleOvercommit nodes0).1 :=
-  handleOvercommit_pres nodes0 (Track b) (fun s x h => track_ambig b s x h)
-    (fun s r nodes h hm => track_move b nodes0 s r nodes h hm) s hnd h
+theorem handleOvercommit_track (b : St) (ex : String) (s : St) (nodes0 : Mask) (hnd : IdsNodup s) (h : Track b ex s) :
+    IdsNodup (s.handleOvercommit nodes0).1 ∧ Track b ex (s.handleOvercommit nodes0).1 :=
+  handleOvercommit_pres nodes0 (Track b ex) (fun s x h => track_ambig b ex s x h)
+    (fun s r nodes h hm => track_move b ex nodes0 s r nodes h hm) s hnd h
+
+/-! ### the shape of a successful internal `allocate` -/
+
+theorem allocate_ok_eq (s : St) (r r' : Req) (h : (s.allocate r).2 = .ok r') :
+    s.req? r'.id = none ∧ r'.zone &&& s.normalMask ≠ 0 ∧ r'.id = r.id ∧ r'.prio = r.prio ∧ r'.size = r.size ∧
+    (s.allocate r).1 = (((withNew s r').startJournal.zoneMove r'.zone r'.id).handleOvercommit r'.zone).1 := by
+  unfold St.allocate at h ⊢
+  cases hv : s.validateRequest r with
+  | error e => simp [hv] at h
+  | ok t1 =>
+    simp only [hv] at h ⊢
+    cases hf : s.findInitialZone { r with types := t1 } with
+    | error e => simp [hf] at h
+    | ok z1 =>
+      simp only [hf] at h ⊢
+      cases hn : s.ensureNormalMemory { r with types := t1, zone := z1 } with
+      | error e => simp [hn] at h
+      | ok zt =>
+        obtain ⟨z2, t2⟩ := zt
+        simp only [hn] at h ⊢
+        have hnone := validateRequest_spec s r t1 hv
+        have hzn := ensureNormalMemory_zone s _ z2 t2 hn
+        cases hh : (({ s.startJournal with reqs := s.startJournal.reqs ++ [{ ({ r with types := t2, zone := z2 } : Req) with zone := 0 }] } : St).zoneAssign z2 r.id).handleOvercommit z2 with
+        | mk s2 oe =>
+          simp only [hh] at h ⊢
+          cases oe with
+          | some e => simp only [] at h; cases h
+          | none =>
+            simp only [Except.ok.injEq] at h
+            subst h
+            simp only []
+            refine ⟨hnone, hzn, trivial, trivial, trivial, ?_⟩
+            have heq : ({ s.startJournal with reqs := s.startJournal.reqs ++ [{ ({ r with types := t2, zone := z2 } : Req) with zone := 0 }] } : St)
+                = (withNew s { r with types := t2, zone := z2 }).startJournal := by
+              simp [withNew, St.startJournal]
+            have hreq : (withNew s { r with types := t2, zone := z2 }).startJournal.req? r.id = some { ({ r with types := t2, zone := z2 } : Req) with zone := 0 } := by
+              unfold St.req? withNew St.startJournal
+              simp only [List.find?_append]
+              have : s.reqs.find? (·.id == r.id) = none := hnone
+              simp [this]
+            have hmove : (withNew s { r with types := t2, zone := z2 }).startJournal.zoneAssign z2 r.id
+                = (withNew s { r with types := t2, zone := z2 }).startJournal.zoneMove z2 r.id := by
+              unfold St.zoneMove
+              simp [hreq]
+            rw [← hmove, ← heq, hh]
+
+/-- every request sits in a zone that has a node with normal memory (in particular it is assigned) -/
+def Placed (s : St) : Prop := ∀ q ∈ s.reqs, q.zone &&& s.normalMask ≠ 0
+
+theorem zoneIn_of_mem (s : St) (hnd : IdsNodup s) (q : Req) (hq : q ∈ s.reqs) : zoneIn s q.id = q.zone := by
+  unfold zoneIn; rw [req?_of_mem_nodup s hnd q hq]; rfl
+
+theorem zoneIn_none (s : St) (id : String) (h : s.req? id = none) : zoneIn s id = 0 := by
+  unfold zoneIn; rw [h]; rfl
+
+/-- a successful internal `allocate` ends in a tracked state relative to the state with the new
+(still unassigned) request added. -/
+theorem allocate_track (s : St) (hw : WF s) (hp : Placed s) (r r' : Req) (h : (s.allocate r).2 = .ok r') :
+    IdsNodup (s.allocate r).1 ∧ Track (withNew s r') r'.id (s.allocate r).1 := by
+  obtain ⟨hnone, hnorm, _, _, _, heq⟩ := allocate_ok_eq s r r' h
+  rw [heq]
+  have hbnd : IdsNodup (withNew s r') := withNew_ids_nodup s hw r' hnone
+  have hb0 : IdsNodup (withNew s r').startJournal := hbnd
+  have hmem0 : ({ r' with zone := 0 } : Req) ∈ (withNew s r').startJournal.reqs := by
+    simp [withNew, St.startJournal]
+  have hback : ({ ({ r' with zone := 0 } : Req) with zone := r'.zone } : Req) = r' := by cases r'; rfl
+  have hnm : ((withNew s r').startJournal.zoneMove r'.zone r'.id).normalMask = s.normalMask :=
+    normalMask_of_nodes _ _ (by rw [zoneMove_nodes]; rfl)
+  apply handleOvercommit_track
+  · unfold IdsNodup; rw [zoneMove_ids]; exact hbnd
+  · have hcases : ∀ q' ∈ ((withNew s r').startJournal.zoneMove r'.zone r'.id).reqs,
+        (q' ∈ (withNew s r').reqs ∧ q'.id ≠ r'.id) ∨ q' = r' := by
+      intro q' hq'
+      have := zoneMove_reqs_mem (withNew s r').startJournal hb0 { r' with zone := 0 } hmem0 r'.zone q' hq'
+      rw [hback] at this
+      exact this
+    have hnewzone : zoneIn (withNew s r') r'.id = 0 := by
+      have : zoneIn (withNew s r') ({ r' with zone := 0 } : Req).id = ({ r' with zone := 0 } : Req).zone :=
+        zoneIn_of_mem (withNew s r') hbnd _ (by simp [withNew])
+      exact this
+    refine ⟨?_, ?_, ?_, ?_⟩
+    · intro q' hq'
+      rcases hcases q' hq' with ⟨hq, _⟩ | e
+      · rw [zoneIn_of_mem _ hbnd q' hq]; exact msub_refl _
+      · subst e; rw [hnewzone]; exact msub_zero _
+    · intro q' hq' _ hne
+      rcases hcases q' hq' with ⟨hq, _⟩ | e
+      · exact (zoneIn_of_mem _ hbnd q' hq).symm
+      · subst e; exact absurd rfl hne
+    · intro q' hq'
+      rw [hnm]
+      rcases hcases q' hq' with ⟨hq, hid⟩ | e
+      · simp only [withNew, List.mem_append, List.mem_singleton] at hq
+        rcases hq with hq | hq
+        · exact hp q' hq
+        · subst hq; exact absurd rfl hid
+      · subst e; exact hnorm
+    · rw [zoneMove_nodes]; rfl
 
 end Nri.LibMem
